@@ -439,8 +439,9 @@ class Project:
                     " {path} and {other_path}"
                 ).format(
                     identifier=identifier,
-                    path=path,
-                    other_path=license_files[identifier],
+                    # Independent of the order in which the files are found.
+                    path=min(path, license_files[identifier]),
+                    other_path=max(path, license_files[identifier]),
                 )
                 _LOGGER.critical(message)
                 raise LicenseConflictError(message)
